@@ -37,7 +37,7 @@ class Contract:
                  decreases=None, ghost_exit=None, bitvector=None, pure=False, variants=None, notes="",
                  kwargs_types=None, havoc_result=True, max_paths=400, loops=None, allow_global_writes=(),
                  hint_terms=(), use_lemmas=(), reads=(), trusted=False, trusted_ensures=(), prune=False,
-                 record=False, raises_ensures=()):
+                 record=False, raises_ensures=(), nondet_ok=None):
         self.key = key
         self.types = dict(types or {})
         self.returns = returns
@@ -60,6 +60,7 @@ class Contract:
         self.trusted_ensures = list(trusted_ensures)
         self.prune = prune
         self.record = record
+        self.nondet_ok = nondet_ok
         self.raises_ensures = list(raises_ensures)
         self.use_lemmas = use_lemmas if isinstance(use_lemmas, dict) else {"": list(use_lemmas)}
 
@@ -167,7 +168,7 @@ class Registry:
         if name in self.specs or name in self.preds:
             return Fun("spec", name=name)
         if name in self.type_names:
-            return Special("typedom", ty=self.type_names[name])
+            return Special("typedom", dom=self.type_names[name])
         if name in SPEC_BUILTINS:
             return Fun("special", handler=SPEC_BUILTINS[name])
         if name in self.spec_consts:
@@ -266,8 +267,12 @@ class Registry:
         return h(eng, [n, kind, it], {}, n)
 
     def global_mutation(self, eng, recv, name, args, node):
+        """a module-level / class-level container is modified: frame violation (state shared between anonymizers)"""
+        from .engine import PathCut
         eng.st.globals_written.append((name, ast.unparse(node)[:80]))
-        raise Unsupported("mutation of module-level container: %s" % ast.unparse(node)[:80])
+        eng.emit("%s#frame.no_global_writes[%s]" % (eng.cur_func, ast.unparse(node)[:50]), z3.BoolVal(False),
+                 meta={"kind": "frame"})
+        raise PathCut()
 
     # ---- spec function calls
     def call_spec(self, eng, name, args, node):
@@ -338,7 +343,8 @@ def _sp_sibling(eng, args, kw, n):
 
 
 def _sp_size(eng, args, kw, n):
-    c = lib.cell(eng, args[0])
+    a0 = args[0].val if isinstance(args[0], OptV) else args[0]
+    c = lib.cell(eng, a0)
     if isinstance(c, BimapV):
         c = c.fwd
     return P(INT, c.size)
